@@ -38,6 +38,21 @@ int main(void)
 			st = addrxlat_map_set(maps[id], addr, &r);
 			alloc_reset();
 			show(st == ADDRXLAT_OK ? "ok" : st == ADDRXLAT_ERR_NOMEM ? "nomem" : "other", maps[id]);
+		} else if (sscanf(line, "reinst %u", &id) == 1 && id < 4) {
+			/* the map lives in a translation system that holds its only reference; it is fetched and
+			 * installed again (get, modify, set back), then handed back to the harness */
+			static addrxlat_sys_t *sys;
+			addrxlat_map_t *m;
+			if (!sys) sys = addrxlat_sys_new();
+			addrxlat_sys_set_map(sys, ADDRXLAT_SYS_MAP_KV_PHYS, maps[id]);
+			addrxlat_map_decref(maps[id]);
+			m = addrxlat_sys_get_map(sys, ADDRXLAT_SYS_MAP_KV_PHYS);
+			addrxlat_sys_set_map(sys, ADDRXLAT_SYS_MAP_KV_PHYS, m);
+			m = addrxlat_sys_get_map(sys, ADDRXLAT_SYS_MAP_KV_PHYS);
+			addrxlat_map_incref(m);
+			addrxlat_sys_set_map(sys, ADDRXLAT_SYS_MAP_KV_PHYS, NULL);
+			maps[id] = m;
+			show("ok", m);
 		} else if (sscanf(line, "search %u %" SCNu64, &id, &addr) == 2 && id < 4) {
 			printf("> %ld\n", (long)addrxlat_map_search(maps[id], addr));
 		} else if (sscanf(line, "copy %u %u %u %u", &id, &dst, &a1, &a2) == 4 && id < 4 && dst < 4) {
